@@ -18,7 +18,9 @@ RULE = ("subprocess runs of scripts/match_template.py and scripts/postprocess.py
         "{unsplit, memory-limited splitting} x {pad_fourier, pad_edges} x {centring on/off} x peak callers in post-processing, "
         "planted positions interior and next to the border, planted rotation from the 24-member set; pickle container on "
         "generated result tuples with ndarray / tuple / memmap members. distinct = distinct option tuples")
-ASSUMPTIONS = ["with automatic centring the template is resampled about its centre of mass (interpolation): the best "
+ASSUMPTIONS = ["PeakCallerScipy and the unnormalised scores CC / LCC are exercised with interior placements only (C05's border "
+               "exception for the external local-maximum finder; CC / LCC are not bounded by the planted value at mirrored borders)",
+               "with automatic centring the template is resampled about its centre of mass (interpolation): the best "
                "orientation must be within 1 voxel (per axis) of the planted centre of mass; without centring it must be the "
                "planted box centre (shape//2) exactly",
                "a rotation is 'the planted rotation' if it maps the template onto the planted copy"]
@@ -154,6 +156,11 @@ def _cli_case(ctx, d, rng, tmp, it, opt):
             P0.append(int(rng.integers(4, n - m - 3)))
         elif peak_calling and split:
             P0.append(int(rng.integers(n // 2 + 1, n - m)))       # in a tile with a non-zero offset
+        elif peak_caller == "PeakCallerScipy" or score in ("CC", "LCC"):
+            # the external local-maximum finder only promises maxima farther than min_distance (3) from the border (C05);
+            # unnormalised scores (CC, LCC) are not bounded by the planted value once mirrored / zero-extended data
+            # enters the window, so these two are planted in the interior
+            P0.append(int(rng.integers(4, n - m - 3)))
         else:
             P0.append(int(rng.choice([0, n - m])) if border else int(rng.integers(1, n - m)))
     target = rng.normal(0, 0.15, size=ns)
